@@ -153,6 +153,11 @@ impl Core<'_> {
         self.log.borrow_mut().push(ev);
         let i = self.pos.get();
         self.pos.set(i + 1);
+        // a correct implementation stops at the first `Ok(0)` beyond the script; a call budget turns a
+        // non-terminating loop in the code under test into an observable panic instead of a hung runner
+        if i > self.script.len() + 64 {
+            panic!("mock call budget exceeded: the operation does not terminate");
+        }
         self.script.get(i).cloned().unwrap_or(Entry { res: Ok(0), data: Vec::new(), pend: 0 })
     }
 }
